@@ -150,6 +150,10 @@ SPECIAL = [
     "VwT", "VwTB", "VwTC", "typing.Callable", "typing.Callable[..., int]", "typing.Callable[[int], str]", "collections.abc.Callable",
     "typing.Any", "object", "None", "...", "typing.ForwardRef('VwDC', module='vw0')", "typing.ForwardRef('int')", "VwAOpt", "VwAStr",
     "typing.Optional[VwNInt]", "VwNInt | None", "typing.Annotated[int, 'x']",
+    # qualifiers directly around aliases / NewTypes: two kinds of wrapper that must both be looked through
+    "typing.ClassVar[VwADict]", "typing.ClassVar[dict[str, int]]", "typing.ClassVar[VwAList]", "typing.Final[VwAList]", "typing.Final[VwADict]",
+    "typing.ClassVar[VwAOpt]", "typing.ClassVar[typing.Optional[int]]", "typing.Final[VwAOpt]", "typing.Final[typing.Optional[int]]",
+    "typing.ClassVar[VwNList]", "typing.Final[VwNDict]", "typing.ClassVar[VwAInt]", "typing.Final[VwNInt]", "typing.Final[dict[str, int]]",
 ]
 INSTANCES = [
     "1", "True", "1.5", "'s'", "b'b'", "None", "[1]", "(1,)", "{1}", "{'a': 1}", "frozenset()", "datetime.date(2020, 1, 1)",
@@ -173,6 +177,10 @@ GROUPS = [
     ["typing.Union[int, str]", "int | str", "typing.Union[str, int]", "str | int"], ["typing.Union[int, str, None]", "int | str | None"],
     ["typing.Optional[list[int]]", "list[int] | None"], ["typing.Optional[VwDC]", "VwDC | None"], ["typing.Literal[1, 2]", "typing.Literal[2, 1]"],
     ["typing.Literal[None, 1]", "typing.Literal[1, None]"], ["typing.Optional[VwNInt]", "VwNInt | None"],
+    ["typing.ClassVar[VwADict]", "typing.ClassVar[dict[str, int]]"], ["typing.ClassVar[VwAList]", "typing.ClassVar[list[int]]", "typing.ClassVar[VwNList]"],
+    ["typing.Final[VwAList]", "typing.Final[list[int]]"], ["typing.Final[VwADict]", "typing.Final[dict[str, int]]", "typing.Final[VwNDict]"],
+    ["typing.ClassVar[VwAOpt]", "typing.ClassVar[typing.Optional[int]]"], ["typing.Final[VwAOpt]", "typing.Final[typing.Optional[int]]"],
+    ["typing.ClassVar[VwAInt]", "typing.ClassVar[int]"], ["typing.Final[VwNInt]", "typing.Final[int]"],
     ["collections.abc.Sequence", "typing.Sequence"], ["collections.abc.Mapping", "typing.Mapping"], ["collections.abc.Iterable", "typing.Iterable"],
     ["collections.abc.MutableMapping", "typing.MutableMapping"], ["collections.abc.Set", "typing.AbstractSet"], ["list", "typing.List"],
     ["dict", "typing.Dict"], ["set", "typing.Set"], ["frozenset", "typing.FrozenSet"], ["tuple", "typing.Tuple"], ["collections.deque", "typing.Deque"],
@@ -464,6 +472,11 @@ class C17(PropBase):
                 sess.violation("disagrees-with-runtime", i, {"pred": p, "obj": e, "resolves_to": model.qn(cls), "library": ans[1], "runtime": want},
                                sig=f"runtime:{p}:{_oclass(e)}")
         elif p in EXACT_MODEL and dom in ("classy", "special", "instance"):
+            if p in ("isoptionaltype", "isuniontype") and typing.get_origin(obj) in (typing.ClassVar, typing.Final):
+                # the statement resolves NewTypes and aliases; whether a qualifier around a union is looked
+                # through is not pinned (the library does for ClassVar, not for Final): stability, spelling
+                # independence and the cold comparison still apply
+                return
             try:
                 want = EXACT_MODEL[p](obj)
             except Exception:
